@@ -148,13 +148,23 @@ impl HtmlFilterBodyAction {
     }
 
     pub fn end(&mut self) -> Vec<u8> {
-        let mut to_return = self.last_buffer.clone();
+        // Flush in input order: the buffered elements from the outermost (oldest) to the
+        // innermost one, then the bytes held back at the end of the last chunk
+        let mut buffers = Vec::new();
         let mut buffer = self.current_buffer.as_ref();
 
-        while buffer.is_some() {
-            to_return.extend_from_slice(buffer.unwrap().buffer.as_bytes());
-            buffer = buffer.unwrap().previous.as_ref();
+        while let Some(link) = buffer {
+            buffers.push(link.buffer.as_bytes());
+            buffer = link.previous.as_ref();
         }
+
+        let mut to_return = Vec::new();
+
+        for bytes in buffers.into_iter().rev() {
+            to_return.extend_from_slice(bytes);
+        }
+
+        to_return.extend_from_slice(self.last_buffer.as_slice());
 
         to_return
     }
